@@ -1,4 +1,5 @@
 import PhysisModel.Proofs.Sha1Pad
+import PhysisModel.Proofs.Fiin
 /-!
 # C10 — file-info tables and patch lists are produced and parsed faithfully
 
@@ -42,5 +43,63 @@ example : Spec.Sha1.sha1 [0x61, 0x62, 0x63] =
 example : Spec.Sha1.sha1 [] =
     [0xda, 0x39, 0xa3, 0xee, 0x5e, 0x6b, 0x4b, 0x0d, 0x32, 0x55, 0xbf, 0xef, 0x95, 0x60, 0x18, 0x90,
      0xaf, 0xd8, 0x07, 0x09] := by decide +kernel
+
+/-! ## FIIN tables (`src/fiin.rs`) -/
+
+/-- `FileInfo::write_to_buffer` emits exactly the documented layout (magic, 16 zero bytes, 1024,
+`96·n`, 992 zero bytes, then the records), for every list of entries. -/
+theorem c10_fiin_write (es : List Spec.Fiin.Entry) : Fiin.write es = Spec.Fiin.encode es :=
+  Fiin.write_eq es
+
+/-- a well-formed entry occupies exactly 96 bytes: size (i32 LE), 4 zero bytes, the name padded
+with NULs to 64 bytes, the digest padded to 24 bytes -/
+theorem c10_fiin_record_layout (e : Spec.Fiin.Entry) (h : Spec.Fiin.WFEntry e = true) :
+    (Fiin.writeEntry e).length = 96 ∧
+    Fiin.writeEntry e =
+      putU32le e.fileSize ++ ([0, 0, 0, 0] ++
+        ((e.fileName ++ List.replicate (64 - e.fileName.length) 0) ++
+         (e.sha1 ++ List.replicate (24 - e.sha1.length) 0))) :=
+  ⟨Fiin.encodeEntry_length e h, rfl⟩
+
+example : Spec.Fiin.WFEntry ⟨6, [0x74, 0x2e, 0x74, 0x78, 0x74], List.replicate 20 0xab⟩ = true := by
+  decide
+
+/-- `FileInfo::from_existing` reads a well-formed table back from its documented layout: same
+sizes and names, digests in their 24-byte field. -/
+theorem c10_fiin_parse (es : List Spec.Fiin.Entry) (h : Spec.Fiin.WF es = true) :
+    Fiin.parse (Spec.Fiin.encode es) = .ok (es.map Spec.Fiin.normEntry) :=
+  Fiin.parse_encode es h
+
+/-- write → parse round trip through the real writer -/
+theorem c10_fiin_roundtrip (es : List Spec.Fiin.Entry) (h : Spec.Fiin.WF es = true) :
+    Fiin.parse (Fiin.write es) = .ok (es.map Spec.Fiin.normEntry) := by
+  rw [c10_fiin_write]; exact c10_fiin_parse es h
+
+example : Spec.Fiin.WF [⟨6, [0x74, 0x2e, 0x74, 0x78, 0x74], List.replicate 20 0xab⟩,
+    ⟨0xFFFFFFFF, [0xc3, 0xa9, 0x00, 0x41], [1, 2, 3]⟩] = true := by decide
+
+/-- `FileInfo::new` lists, per file and in order, the base name of its path, its exact size and
+the SHA-1 digest (FIPS 180-4) of its contents. -/
+theorem c10_fiin_new (files : List (Bytes × Bytes))
+    (h : files.all (fun f => Spec.Fiin.WFPath f.1) = true) :
+    Fiin.new files =
+      some (files.map fun f => ⟨UInt32.ofNat f.2.length, Spec.Fiin.baseName f.1, Spec.Sha1.sha1 f.2⟩) := by
+  have := Fiin.newEntries_eq Sha1.sha1 files h
+  simp only [Fiin.new, this, c10_sha1]
+
+/-- the size field is the exact length for files below 2 GiB (`len as i32`) -/
+theorem c10_fiin_size_exact (n : Nat) (h : n < 2 ^ 31) :
+    (UInt32.ofNat n).toInt32.toInt = n := by
+  rw [UInt32.toInt32_ofNat', Int32.toInt_ofNat_of_lt h]
+
+example : [([0x64, 0x2f, 0x61, 0x2e, 0x62], [1, 2, 3]), ([0x78], [])].all
+    (fun f : Bytes × Bytes => Spec.Fiin.WFPath f.1) = true := by decide
+
+/-- a table built by `FileInfo::new`, written and parsed again lists the same files: base name,
+size, and the digest followed by the four padding bytes of its field -/
+theorem c10_fiin_new_roundtrip (files : List (Bytes × Bytes)) (es : List Spec.Fiin.Entry)
+    (hn : Fiin.new files = some es) (h : Spec.Fiin.WF es = true) :
+    Fiin.parse (Fiin.write es) = .ok (es.map Spec.Fiin.normEntry) :=
+  c10_fiin_roundtrip es h
 
 end Physis.C10
